@@ -29,6 +29,10 @@ func enumerateCases(prop, tier string) []ProvCase {
 			cases = append(cases, ProvCase{Kind: "fleet", Size: n, Failure: "fleet-errors-only"})
 			cases = append(cases, ProvCase{Kind: "fleet", Size: n, Failure: "fleet-errors-plus"})
 			cases = append(cases, ProvCase{Kind: "fleet", Size: n, Failure: "status-error", K: 1})
+			if n <= 41 {
+				cases = append(cases, ProvCase{Kind: "fleet", Size: n, Failure: "never-ready", Repeat: 3})
+				cases = append(cases, ProvCase{Kind: "fleet", Size: n, Failure: "attach", K: batches, Repeat: 3})
+			}
 			ks := []int{}
 			for k := 1; k <= batches; k++ {
 				if tier == "thorough" || k <= 3 || k >= batches-1 || k == batches/2 {
@@ -43,6 +47,22 @@ func enumerateCases(prop, tier string) []ProvCase {
 				}
 				if n > 1000 && k == 1 {
 					cases = append(cases, ProvCase{Kind: "fleet", Size: n, Failure: "attach", K: k, K2: 2})
+				}
+			}
+		}
+	}
+	if prop == "C07" || prop == "C17" {
+		// force-removal batch (k-th terminate failing or none) followed by a scale-up in the same scan
+		for _, desired := range []int{4, 7} {
+			for n := 1; n <= 3; n++ {
+				for k := 0; k <= n; k++ {
+					for _, d := range []int{1, 3} {
+						pc := ProvCase{Kind: "delete", Size: n, Desired: desired, Min: 0, ForeignAt: -1, Failure: "none", K2: d}
+						if k > 0 {
+							pc.Failure, pc.K = "terminate-asg", k
+						}
+						cases = append(cases, pc)
+					}
 				}
 			}
 		}
